@@ -191,6 +191,11 @@ class BuiltinMixin:
                 continue
             src = r.val
             k = strip_opt(src.ty).kind
+            if k == "any":
+                # iteration over a foreign iterable with a pure predicate: an unknown boolean (AX-ITER-PURE)
+                r.st.uses.add("AX-ITER-PURE")
+                out.append(Res(r.st, SV(vbool(fresh("anyall", B)), TBOOL)))
+                continue
             if k not in ("tuple", "list"):
                 raise Untranslatable(f"all()/any() over {src.ty}")
             a = Val.a(src.t)
